@@ -1,4 +1,5 @@
 import CEProofs.C06
+import CEProofs.C06Lasso
 #print axioms CE.Disc.C06.rejects
 #print axioms CE.Disc.C06.only_errors
 #print axioms CE.Disc.C06.edge_wf
@@ -6,3 +7,6 @@ import CEProofs.C06
 #print axioms CE.Disc.C06.nodes_exact
 #print axioms CE.Disc.C06.no_duplicate_triple
 #print axioms CE.Disc.C06.cmi_not_finite_negative
+#print axioms CE.Disc.C06.selOfCoef_spec
+#print axioms CE.Disc.C06.selOfCoef_sorted
+#print axioms CE.Disc.C06.lassoOK_of_coef
